@@ -151,6 +151,8 @@ fn cwd_component(kind: u8) -> Vec<PathBuf> {
         2 => vec![PathBuf::from("ünï-cödé-目录")],
         3 => vec![PathBuf::from("L".repeat(200))],
         4 => vec![PathBuf::from("M".repeat(250)), PathBuf::from("N".repeat(250)), PathBuf::from("O".repeat(100))],
+        // a component that is not valid UTF-8 (a Latin-1 name)
+        5 => vec![PathBuf::from(OsString::from_vec(b"caf\xe9 d\xfcr".to_vec()))],
         _ => vec![PathBuf::from("d0")],
     }
 }
@@ -312,6 +314,13 @@ pub fn materialise(root: &Path, w: &World, program: &[u8]) -> std::io::Result<La
                 argv1.push(b'/');
             }
             argv1.extend_from_slice(b"a.sd");
+        }
+        16 => {
+            // more `..` than there are directories above cwd: `/..` is `/`
+            for _ in 0..40 {
+                argv1.extend_from_slice(b"../");
+            }
+            argv1.extend_from_slice(&script.as_os_str().as_bytes()[1..]);
         }
         13 | 14 | 15 => {
             // the script is what stdin is open on (`seed /dev/stdin < script`); 15: and the
